@@ -209,6 +209,7 @@ TYPES = [
     Struct(F_DFA, 'StateData', derive=[]),
     Struct(F_LA, 'CompiledLookahead', derive=[]),
     Struct(F_DFA, 'CompiledDfa', derive=[]),
+    RawFile('../common/dfa_wf.rs'),
     RawFile('../u_dfa/spec.rs'),
 ]
 
@@ -223,6 +224,7 @@ MODE_ITEMS = [
 pub struct CharacterClassRegistry { _private: () }
 ''', label='opaque CharacterClassRegistry'),
     Struct(F_SI, 'ScannerImpl', derive=[], dyn_param='M'),
+    RawFile('../common/scanner_wf.rs'),
     RawFile(os.path.join(os.path.dirname(os.path.abspath(__file__)), 'mode_spec.rs')),
     Fn(F_MATCH, 'Match', 'token_type', ret='r', spec='ensures r == self.token_type', props=['C06']),
     Fn(F_MATCH, 'Match', 'start', ret='r', spec='ensures r == self.span.start'),
